@@ -9,5 +9,6 @@ sed -i -E "$EXPR" $WT/$FILE
 if cmp -s $WT/$FILE $WT/$FILE.orig; then echo "MUTATION DID NOT APPLY"; git -C /repo worktree remove --force $WT; exit 9; fi
 diff $WT/$FILE.orig $WT/$FILE | head -6
 rm $WT/$FILE.orig
-cd "$(dirname "$0")/.." && PYTHONPATH=$WT/src ./check $PROP $TIER 2>&1 | grep -E "VIOLATION|HARNESS-ERROR|KNOWN|quick:|thorough:" | cut -c1-220
+cd "$(dirname "$0")/.." && VERIF_EVIDENCE_DIR=/tmp/mut_evid_$$ PYTHONPATH=$WT/src:$WT ./check $PROP $TIER 2>&1 | grep -E "VIOLATION|HARNESS-ERROR|KNOWN|quick:|thorough:" | cut -c1-220
 git -C /repo worktree remove --force $WT
+rm -rf /tmp/mut_evid_$$
